@@ -90,25 +90,65 @@ func init() {
 					continue
 				}
 				found = true
-				// what the tested name ranges over
-				srcs := []ast.Expr{exported.Args[0]}
-				if v := fi.varOf(exported.Args[0]); v != nil {
-					for _, d := range fi.defs[v] {
-						if d.rhs != nil {
-							srcs = append(srcs, d.rhs)
-						}
+				// what the tested name ranges over: the fields of the step record read inside the loop
+				// (including a helper analysed in place that collects the printed names)
+				onCall := func(e ast.Expr) *types.Var {
+					sel, ok := ast.Unparen(e).(*ast.SelectorExpr)
+					if !ok {
+						return nil
 					}
+					if t := fi.Info.TypeOf(sel.X); t == nil || !isNamed(derefType(t), pathW, "call") {
+						return nil
+					}
+					return fi.selField(sel)
 				}
-				for _, e := range srcs {
-					ast.Inspect(e, func(nd ast.Node) bool {
-						if x, ok := nd.(ast.Expr); ok {
-							if f := fi.selField(x); f != nil {
+				fi.inspect(loop, func(nd ast.Node) bool {
+					switch x := nd.(type) {
+					case *ast.CompositeLit:
+						// a name placed in a list of names
+						for _, el := range x.Elts {
+							if kv, ok := el.(*ast.KeyValueExpr); ok {
+								el = kv.Value
+							}
+							if f := onCall(el); f != nil && isString(f.Type()) {
 								covered[f.Name()] = true
 							}
 						}
-						return true
-					})
-				}
+					case *ast.RangeStmt:
+						// a list of names each of which is added to the list
+						if f := onCall(x.X); f != nil {
+							adds := false
+							ast.Inspect(x.Body, func(m ast.Node) bool {
+								if as, ok := m.(*ast.AssignStmt); ok && len(as.Rhs) == 1 && fi.isBuiltin(as.Rhs[0], "append") != nil {
+									adds = true
+								}
+								return true
+							})
+							if adds {
+								covered[f.Name()] = true
+							}
+						}
+					case *ast.CallExpr:
+						if fi.isBuiltin(x, "append") != nil && x.Ellipsis.IsValid() {
+							if f := onCall(x.Args[len(x.Args)-1]); f != nil {
+								covered[f.Name()] = true
+							}
+						}
+					}
+					return true
+				})
+				// field names are attributed to the package that declares the FIELD (the type name may be a local
+				// alias of, or defined from, another package's struct)
+				fieldPkg := false
+				fi.inspect(loop, func(nd ast.Node) bool {
+					if cl, ok := nd.(*ast.CallExpr); ok && (fi.calleeName(cl) == "go/types.Var.Pkg" || fi.calleeName(cl) == "go/types.object.Pkg") {
+						if fc := fi.isCall(fi.deref(recvOf(cl)), "go/types.Struct.Field"); fc != nil {
+							fieldPkg = true
+						}
+					}
+					return true
+				})
+				r.Check(fieldPkg, "export-test/field-names-by-declaring-package", add.Pos(), "the package compared for a field name is the one that declares the field")
 				r.Check(foreign, "export-test/only-for-other-packages", add.Pos(), "the test applies exactly when the step's package differs from the injector's")
 				r.Check(len(other) == 0, "export-test/no-further-condition", add.Pos(), "no further condition limits the test (%v)", other)
 			}
@@ -135,28 +175,41 @@ func init() {
 				// true when the condition says "is blank"
 				return (be.Op == token.EQL) == g.Neg, true
 			}
-			if sp := r.Need(c.Fn(c.W, "processStructProvider"), "processStructProvider"); sp != nil {
-				n := 0
-				sp.inspect(sp.Decl.Body, func(nd ast.Node) bool {
-					as, ok := nd.(*ast.AssignStmt)
-					if !ok || len(as.Rhs) != 1 || sp.isBuiltin(as.Rhs[0], "append") == nil {
+			// every place that turns a struct's i-th field into an input of a struct provider
+			n := 0
+			for _, fi := range c.all {
+				if fi.Pkg != c.W {
+					continue
+				}
+				fi := fi
+				fi.inspect(fi.Decl.Body, func(nd ast.Node) bool {
+					cl, ok := nd.(*ast.CompositeLit)
+					if !ok || !isNamed(fi.Info.TypeOf(cl), pathW, "ProviderInput") {
 						return true
 					}
-					if f := sp.selField(as.Lhs[0]); f == nil || f.Name() != "Args" {
-						return true
-					}
-					n++
-					okB := false
-					for _, g := range sp.Guards(as) {
-						if notBlank, ok := isBlankTest(sp, g); ok && notBlank {
-							okB = true
+					for _, el := range cl.Elts {
+						kv, ok := el.(*ast.KeyValueExpr)
+						if !ok || kv.Key.(*ast.Ident).Name != "FieldName" {
+							continue
 						}
+						nc := fi.isCall(kv.Value, "go/types.Var.Name", "go/types.object.Name")
+						if nc == nil || fi.isCall(fi.deref(recvOf(nc)), "go/types.Struct.Field") == nil {
+							continue // a field chosen by name goes through checkField (below)
+						}
+						n++
+						r.Need(fi, fi.Name)
+						okB := false
+						for _, g := range fi.Guards(cl) {
+							if notBlank, ok := isBlankTest(fi, g); ok && notBlank {
+								okB = true
+							}
+						}
+						r.Check(okB, "all-fields/skips-blank@"+fi.Name, cl.Pos(), "a field enumerated from the struct becomes an input only when its name is not _")
 					}
-					r.Check(okB, "star/skips-blank", as.Pos(), "a field reaches the \"*\" argument list only when its name is not _")
 					return true
 				})
-				r.Floor("\"*\" appends", n, 1)
 			}
+			r.Floor("field enumerations that build provider inputs", n, 2)
 			if cf := r.Need(c.Fn(c.W, "checkField"), "checkField"); cf != nil {
 				n := 0
 				for _, ret := range cf.returnsOf() {
@@ -446,4 +499,77 @@ func init() {
 			})
 			r.Floor("file loops in generateInjectors", n, 1)
 		})
+	register("C10.R9", "marker calls and type names are recognised through parentheses: qualifiedIdentObject — the one place that turns the syntax of a callee or a type operand into the object it names — removes parentheses before it matches identifier / pkg.Name",
+		func(c *Ctx, r *R) {
+			fi := r.Need(c.Fn(c.W, "qualifiedIdentObject"), "qualifiedIdentObject")
+			if fi == nil {
+				return
+			}
+			n := 0
+			fi.inspect(fi.Decl.Body, func(nd ast.Node) bool {
+				ts, ok := nd.(*ast.TypeSwitchStmt)
+				if !ok {
+					return true
+				}
+				var subj ast.Expr
+				switch a := ts.Assign.(type) {
+				case *ast.AssignStmt:
+					if ta, ok := ast.Unparen(a.Rhs[0]).(*ast.TypeAssertExpr); ok {
+						subj = ta.X
+					}
+				case *ast.ExprStmt:
+					if ta, ok := ast.Unparen(a.X).(*ast.TypeAssertExpr); ok {
+						subj = ta.X
+					}
+				}
+				if subj == nil || !fi.isParam(fi.varOf(unparenArg(fi, subj))) {
+					return true
+				}
+				n++
+				okU := fi.isCall(fi.deref(subj), "golang.org/x/tools/go/ast/astutil.Unparen", "go/ast.Unparen") != nil
+				r.Check(okU, "qualifiedIdentObject/unparen", ts.Pos(), "the expression is unparenthesised before it is matched")
+				return true
+			})
+			r.Floor("syntax matches in qualifiedIdentObject", n, 1)
+		})
+	register("C19.R8", "show lists every type a group provides: the outputs of a group are not collected under their printed form — types.TypeString is not injective (unexported fields of two packages print alike), so a map keyed by it silently drops a type, and which one depends on iteration order",
+		func(c *Ctx, r *R) {
+			fi := r.Need(c.Fn(c.Cmd, "showCmd.Execute"), "showCmd.Execute")
+			if fi == nil {
+				return
+			}
+			n, bad := 0, 0
+			fi.inspect(fi.Decl.Body, func(nd ast.Node) bool {
+				cl, ok := nd.(*ast.CallExpr)
+				if !ok || fi.calleeName(cl) != "go/types.TypeString" {
+					return true
+				}
+				n++
+				// used as a map key (store or lookup)?
+				for p := fi.parent[ast.Node(cl)]; p != nil; p = fi.parent[p] {
+					if ix, ok := p.(*ast.IndexExpr); ok && contains(ix.Index, cl) {
+						if _, isMap := fi.Info.TypeOf(ix.X).Underlying().(*types.Map); isMap {
+							bad++
+							r.Bad("show/outputs-keyed-by-printed-type#"+itoa(bad), cl.Pos(), "a provided type is filed under its printed form")
+						}
+					}
+					if _, isStmt := p.(ast.Stmt); isStmt {
+						break
+					}
+				}
+				return true
+			})
+			if bad == 0 {
+				r.Ok("show/outputs-keyed-by-printed-type", fi.Decl.Pos(), "no map is keyed by a printed type (%d uses of TypeString examined)", n)
+			}
+			r.Floor("TypeString uses in show", n, 1)
+		})
+}
+
+// unparenArg returns the argument of an Unparen call (through locals), or e itself.
+func unparenArg(fi *FuncInfo, e ast.Expr) ast.Expr {
+	if cl := fi.isCall(fi.deref(e), "golang.org/x/tools/go/ast/astutil.Unparen", "go/ast.Unparen"); cl != nil {
+		return cl.Args[0]
+	}
+	return e
 }
